@@ -59,6 +59,26 @@ func (p c05) Run(c *core.Ctx) {
 	for k := 0; k < npp; k++ {
 		extra = append(extra, world.NewPP(c.Rng.Intn(4), fmt.Sprintf("pp%d", k), c.Rng.Intn(5)-2))
 	}
+	// post-processors that are themselves dependencies of ordinary components (eager and lazy ones)
+	var lifePPs []string
+	if c.Rng.Intn(3) == 0 {
+		for k := 0; k < 1+c.Rng.Intn(2); k++ {
+			name := fmt.Sprintf("lifepp%d", k)
+			if c.Rng.Intn(2) == 0 {
+				extra = append(extra, &world.LazyLifePP{LifePP: world.LifePP{Nm: name}})
+			} else {
+				extra = append(extra, &world.LifePP{Nm: name})
+			}
+			lifePPs = append(lifePPs, name)
+			g := &world.G{Rng: c.Rng, Sc: sc}
+			for x := 0; x < 1+c.Rng.Intn(2); x++ {
+				i := c.Rng.Intn(len(sc.Nodes))
+				if free := g.FreeSlots(i, func(si world.SlotInfo) bool { return si.Kind == "iface" && (si.Iface == "any" || si.Iface == "IA") }); len(free) > 0 {
+					g.SetTag(i, free[0], "wire", name)
+				}
+			}
+		}
+	}
 	r := world.Start(sc, world.Options{Extra: extra})
 	c.Count("starts", 1)
 	c.Count("outcome_"+r.Outcome(), 1)
@@ -67,6 +87,8 @@ func (p c05) Run(c *core.Ctx) {
 		return
 	}
 	problems, stats := checkLifecycle(r, npp)
+	problems = append(problems, checkLifePPs(r, lifePPs)...)
+	c.Count("post_processor_dependencies", len(lifePPs))
 	c.Count("lifecycle_events", stats.events)
 	c.Count("components_checked", stats.components)
 	c.Count("dependency_pairs_checked", stats.pairs)
@@ -299,4 +321,60 @@ func checkLifecycle(r *world.Run, npp int) (problems []string, st lcStats) {
 
 func isZeroSnap(s string) bool {
 	return s == `""` || s == "0" || s == "[]string(nil)"
+}
+
+// checkLifePPs: a post-processor that is a dependency of a created component went through its own
+// lifecycle exactly once, before the component that holds it was initialised.
+func checkLifePPs(r *world.Run, names []string) []string {
+	var out []string
+	if len(names) == 0 {
+		return nil
+	}
+	ev := r.Log.Events()
+	count := func(kind, who string) (n, first int) {
+		first = -1
+		for _, e := range ev {
+			if e.Kind == kind && e.Who == who {
+				if first < 0 {
+					first = e.Seq
+				}
+				n++
+			}
+		}
+		return
+	}
+	created := r.Created()
+	for i, nd := range r.Nodes {
+		if !created[nd.DisplayName()] {
+			continue
+		}
+		for _, s := range world.SortedSlots(&r.Sc.Nodes[i]) {
+			refs, _ := r.SlotRefs(nd, s)
+			for _, ref := range refs {
+				var nm string
+				switch p := ref.Obj.(type) {
+				case *world.LifePP:
+					nm = p.Nm
+				case *world.LazyLifePP:
+					nm = p.Nm
+				default:
+					continue
+				}
+				nInit, fInit := count("init", nm)
+				nAps, _ := count("aps", nm)
+				if nInit != 1 || nAps != 1 {
+					out = append(out, fmt.Sprintf("post-processor component %q is held by created component %q but has %d Init and %d AfterPropertiesSet event(s)", nm, nd.DisplayName(), nInit, nAps))
+					continue
+				}
+				_, holderInit := count("init", nd.DisplayName())
+				if _, a := count("aps", nd.DisplayName()); a >= 0 && (holderInit < 0 || a < holderInit) {
+					holderInit = a
+				}
+				if holderInit >= 0 && fInit > holderInit {
+					out = append(out, fmt.Sprintf("component %q started initialising (%d) before its dependency, post-processor %q, was initialised (%d)", nd.DisplayName(), holderInit, nm, fInit))
+				}
+			}
+		}
+	}
+	return out
 }
